@@ -40,7 +40,8 @@
 (*                                                                         *)
 (* Outcome classes: "accept" (with its effect: callbacks cb, packets out,  *)
 (* state after), "protocol_error" (the connection ends with a              *)
-(* ProtocolError-class disconnect), "ignored" (dropped on purpose),        *)
+(* ProtocolError-class disconnect), "ignored" (dropped on purpose; while   *)
+(* the own CLOSE waits for window the dropped bytes are credited back),    *)
 (* "unimpl" (answered with UNIMPLEMENTED, nothing else).                   *)
 (***************************************************************************)
 EXTENDS Integers, Sequences, FiniteSets, TLC
@@ -53,6 +54,8 @@ CONSTANTS
     DropAfterClose,     \* TRUE as coded.   FALSE: DATA after the local close is a protocol error
     ReplyWhileClosing,  \* TRUE as coded (repaired, F28). FALSE: no reply while a close waits for window
     CheckWindow,        \* TRUE as coded.   FALSE: DATA beyond the window is accepted
+    CreditWhileClosing, \* TRUE as coded (repaired, F32): data dropped while the own CLOSE still waits
+                        \* for window is credited back with a WINDOW_ADJUST.  FALSE: dropped silently
     SecondStart         \* "as_coded": a second shell/exec/subsystem request is handed to the
                         \* application again (observation F10); "refused": RFC 4254 6.5
 
@@ -200,7 +203,13 @@ ProcData(st, name, n, okext, trail) ==
     ELSE IF CheckWindow /\ n > st.rwin - SumBuf(st.buf) THEN PE(st, "window")
     ELSE IF n = 0 THEN Ign(st, "empty")
     ELSE IF st.ss \in {"close_pending", "closed"}
-         THEN IF DropAfterClose THEN Ign(st, "dropped_closed") ELSE PE(st, "data_after_close")
+         THEN IF ~DropAfterClose THEN PE(st, "data_after_close")
+              ELSE IF st.ss = "close_pending"
+              THEN \* the own CLOSE is still waiting for window: the bytes are given back to the
+                   \* peer (no window consumed), or two channels closing at the same time with
+                   \* exhausted windows wait for each other for ever
+                   Ign(IF CreditWhileClosing THEN EmitCh(st, "ADJ", n) ELSE st, "dropped_credited")
+              ELSE Ign(st, "dropped_closed")
     ELSE IF st.rd # "reading" THEN Acc([st EXCEPT !.buf = Append(@, <<name, n>>)], "buffered")
     ELSE Acc(DeliverOne(st, name, n), "delivered")
 
@@ -412,6 +421,12 @@ ReplyIffWanted ==
 \* after close() / abort() the session gets no more data
 NoDataAfterLocalClose ==
     (row.chan = "known" /\ row.ss \in {"close_pending", "closed"}) => DataCbs(O.cb \o L) <= (IF row.buf THEN 1 ELSE 0)
+
+\* data dropped while the own CLOSE waits for window is credited back in full
+DroppedDataCredited ==
+    (row.chan = "known" /\ row.ss = "close_pending" /\ O.cls = "ignored" /\ row.msg # "DATA_ZERO") =>
+        /\ Len(O.out) = 1 /\ O.out[1][1] = "ADJ" /\ O.out[1][2] >= 1
+        /\ O.rwin = W /\ O.buf = <<>> /\ O.cb = <<>>
 
 \* only the message itself can be refused: a refusal has no other effect
 ErrorHasNoEffect == O.cls = "protocol_error" => O.cb = <<>> /\ O.out = <<>>
